@@ -69,7 +69,7 @@ func (backend) CometBFTBlockByHash(common.Hash) (*coretypes.ResultBlock, error) 
 func (backend) CometBFTBlockResultByNumber(*int64) (*coretypes.ResultBlockResults, error) {
 	return nil, fmt.Errorf("not implemented")
 }
-func (backend) GetLogs(common.Hash) ([][]*ethtypes.Log, error)   { return nil, nil }
+func (backend) GetLogs(common.Hash) ([][]*ethtypes.Log, error)    { return nil, nil }
 func (backend) GetLogsByHeight(*int64) ([][]*ethtypes.Log, error) { return nil, nil }
 func (backend) BlockBloom(*coretypes.ResultBlockResults) ethtypes.Bloom {
 	return ethtypes.Bloom{}
